@@ -206,7 +206,12 @@ def handle(job):
                     pa = None if pos == '~' else pos
                     for init, m in ((True, mi), (False, mu)):
                         try:
-                            o['calls'].append([form, pos, init, 'ok', res_map(m(form, pa))])
+                            row = [form, pos, init, 'ok', res_map(m(form, pa))]
+                            # a Wordnet using this lemmatizer (exact matching, all forms): the
+                            # words it finds for the query, as (pos, lemma) pairs
+                            wl = wn.Wordnet(f'{lid}:1', lemmatizer=m, normalizer=None)
+                            row.append(sorted([x.pos, str(x.lemma())] for x in wl.words(form, pos=pa)))
+                            o['calls'].append(row)
                         except JobTimeout:
                             raise
                         except Exception as e:
